@@ -36,6 +36,23 @@ implementations and its submodules; clusters of private helpers that call each o
 mutual recursion) and the visible procedures; bindings to private procedures (`procedure :: b => h`).  With the
 default `display` none of them has a node: every caller must show what is reached through them (the oracle
 computes that by definition, per call), a binding to a hidden procedure is a node of its own.
+
+Round 4 - the rest of the program units and of what a graph object is used for:
+  * generated (independent stream, the earlier projects stay what they were): BLOCK DATA units with USE
+    statements (also as the only user of a module), procedures that are program units of their own (file
+    level; USE, calls, called by bare name), internal procedures of module / file-level procedures (shown only
+    with `proc_internals`: then roots of the project-wide call graph without graphs of their own, else one more
+    kind of procedure that is not shown), files made of such units only;
+  * the project lists that are registered are read from ford/output.py (translator), not written here;
+  * observed in addition: what `FortranGraph.__str__` puts on the page (nothing / picture / the table fall-back
+    with its rows), the labels of the composition edges, and the `.gv` files `GraphManager.output_graphs`
+    writes into `graph_dir` (graphviz's `render` replaced by writing the DOT source);
+  * oracle in addition: a graph is shown as a table exactly when its first hop does not fit, and the rows are
+    the entities one step away with the style of their edge; composition edges are labelled with the component
+    names; a graph file carries the name <dir>~~<ident>~~<class>.gv of a graph of a documented entity and the
+    same nodes and edges as that graph; procedures that are not shown are neither callers nor users;
+  * second and third generated table: `ctorLinks` / `ctorClasses` (every node constructor run on stubs: which
+    slots it reads, both directions stored) and `projectLists` (which lists are registered).
 """
 from __future__ import annotations
 
@@ -59,8 +76,17 @@ def translate():
 # running the real code
 # --------------------------------------------------------------------------
 
-REG_LISTS = ["types", "procedures", "submodprocedures", "modules", "submodules",
-             "programs", "files", "blockdata"]
+_REG_LISTS: list[str] = []
+
+
+def reg_lists() -> list[str]:
+    """the project lists `Documentation.__init__` registers with the graph manager, in its order - read from
+    ford/output.py by the translator (types, procedures, submodprocedures, modules, submodules, programs,
+    files, blockdata in the unchanged tree)"""
+    if not _REG_LISTS:
+        from translate import c13 as T
+        _REG_LISTS.extend(T.registration_lists())
+    return _REG_LISTS
 
 PER_ENTITY = {  # attribute on the Fortran object -> class name used by the model
     "usesgraph": "uses", "usedbygraph": "usedby", "inhergraph": "inherits",
@@ -91,12 +117,43 @@ def build(ford, root: Path, files: dict, opts: dict):
     project.correlate()
     gm = G.GraphManager("", "../", settings.coloured_edges, settings.show_proc_parent)
     order = []
-    for name in REG_LISTS:
+    for name in reg_lists():
         for item in getattr(project, name):
             order.append(item)
             gm.register(item)
     gm.graph_all()
     return project, gm, order
+
+
+def save_graphs(gm, graphdir: Path) -> dict:
+    """`GraphManager.output_graphs` as `graph_dir` makes FORD run it (serially), with graphviz's rendering
+    replaced by writing the DOT source only (`dot` itself is third-party and not part of the observation).
+    -> file name -> (node names, edges) of every `.gv` file written; other files by name only."""
+    import graphviz
+    import shutil
+
+    shutil.rmtree(graphdir, ignore_errors=True)
+    real_render = graphviz.Digraph.render
+
+    def render(self, filename=None, *a, **k):
+        Path(filename).write_text(self.source)
+        return str(filename)
+    old = gm.save_graphs, gm.graphdir
+    graphviz.Digraph.render = render
+    try:
+        gm.save_graphs, gm.graphdir = True, Path(graphdir)
+        gm.output_graphs(0)
+    finally:
+        graphviz.Digraph.render = real_render
+        gm.save_graphs, gm.graphdir = old
+    out = {}
+    for f in sorted(Path(graphdir).iterdir()) if Path(graphdir).exists() else []:
+        if f.suffix == ".gv":
+            nodes, edges = parse_dot(f.read_text())
+            out[f.name] = (sorted(set(nodes)), sorted((t, h, st[0]) for t, h, st, _ in edges))
+        else:
+            out[f.name] = None
+    return out
 
 
 # --------------------------------------------------------------------------
@@ -118,9 +175,17 @@ class Table:
         from translate import c13 as T
         self.class_names = T.class_names(ford)
         self.class_index = lambda o: T.class_index(self.class_names, o)
+        # node class of every Python class, as the translator's constructor probe found it (kind code of
+        # the generated table `ctorClasses`); an entity whose `is_*` kind differs is reported
+        if Table._kind_of_class is None:
+            Table._kind_of_class = T.kind_of_class(ford)
+        self.kind_mismatch: list[str] = []
         self.EXT = (sf.ExternalModule, sf.ExternalSubmodule, sf.ExternalType, sf.ExternalBoundProcedure,
                     sf.ExternalSubroutine, sf.ExternalFunction, sf.ExternalInterface, sf.ExternalProgram,
                     sf.ExternalSourceFile)
+
+    _kind_of_class = None
+    KIND_CODE = {"m": 0, "s": 1, "t": 2, "p": 3, "g": 4, "f": 5, "b": 6}
 
     def ident(self, obj) -> str:
         if obj is None or obj is True or obj is False:
@@ -158,6 +223,9 @@ class Table:
                  cls=self.class_index(obj))
         if k == "x":
             return r
+        if Table._kind_of_class.get(r["cls"]) != self.KIND_CODE.get(k):
+            self.kind_mismatch.append(f"{r['name']}: an object of class {type(obj).__name__} is a node of kind {k!r}, "
+                                      f"the constructor table says kind code {Table._kind_of_class.get(r['cls'])}")
         r["visible"] = bool(getattr(obj, "visible", True))
         r["visibleF"] = bool(getattr(obj, "visible", False))
         r["isBound"] = isinstance(obj, sf.FortranBoundProcedure)
@@ -257,9 +325,33 @@ def parse_dot(source: str):
     return nodes, edges
 
 
+ROW_RE = re.compile(r'<tr>(?:(?!</tr>).)*class="node"(?:(?!</tr>).)*</tr>', re.S)
+ROW_NODE_RE = re.compile(r'class="node" bgcolor="[^"]*">(?:<a href="[^"]*">)?(.*?)(?:</a>)?</td>', re.S)
+ROW_STYLE_RE = re.compile(r'<td class="(solid|dashed)(?:Bottom|Text)">')
+
+
+def observe_shown(graph):
+    """what `FortranGraph.__str__` puts on the page: ("n", []) nothing, ("s", []) the picture,
+    ("t", rows) the table fall-back with one (name of the entity beside the root, style) per row"""
+    text = str(graph)
+    if text == "":
+        return "n", []
+    if '<table class="graph">' in text:
+        rows = []
+        for m in ROW_RE.finditer(text):
+            node, style = ROW_NODE_RE.search(m.group(0)), ROW_STYLE_RE.search(m.group(0))
+            label = node.group(1) if node else "?"
+            rows.append((label.split("::")[-1].split("%")[-1], style.group(1)[0] if style else "?"))
+        return "t", sorted(rows)
+    if 'class="depgraph"' in text:
+        return "s", []
+    return "?", []
+
+
 def observe(graph, tab: Table | None):
     """canonical observation of one FortranGraph object"""
     nodes, edges = parse_dot(graph.dot.source)
+    shown, rows = observe_shown(graph)
     name = (lambda s: tab.ids.get(s, s)) if tab else (lambda s: s)
     key = lambda x: (isinstance(x, str), x)  # noqa
     ekey = lambda e: tuple(key(x) for x in e)  # noqa
@@ -272,6 +364,8 @@ def observe(graph, tab: Table | None):
         "hop_edges": sorted(((name(e["edge"]["tail_name"]), name(e["edge"]["head_name"]), e["edge"]["style"][0])
                              for e in graph.hop_edges), key=ekey),
         "labels": {n: None for n in ()},
+        "shown": shown, "rows": rows, "file": f"{graph.imgfile}.gv", "nroots": len(graph.root),
+        "edge_labels": sorted((t, h, lb) for t, h, _, lb in edges if lb is not None),
     }
 
 
@@ -338,7 +432,8 @@ def observe_nodes(gm, tab: Table):
 
 
 def parse_model_graph(field: str):
-    label, added, edges, trunc, hopn, hope = field.split("|")
+    label, added, edges, trunc, hopn, hope, shown, rows, rows_alt = field.split("|")
+    rl = lambda rs: [(int(r.split(":")[0]), r.split(":")[1]) for r in rs.split(",")] if rs else []  # noqa
     nl = lambda s: sorted(int(x) for x in s.split(",")) if s else []  # noqa
 
     def el(s):
@@ -350,7 +445,8 @@ def parse_model_graph(field: str):
         return sorted(out)
 
     return label, {"added": nl(added), "edges": el(edges), "truncated": int(trunc),
-                   "hop_nodes": nl(hopn), "hop_edges": el(hope)}
+                   "hop_nodes": nl(hopn), "hop_edges": el(hope), "shown": shown,
+                   "rows": rl(rows), "rows_alt": rl(rows_alt)}
 
 
 def parse_model_data(field: str):
@@ -366,11 +462,12 @@ def parse_model_data(field: str):
     return {int(x) for x in created.split(",")} if created else set(), ll(fwd), ll(inv)
 
 
-VARIANT = {"call_count": "asis", "bound_root": "asis"}   # decided at run time by `decide_variant`
+VARIANT = {"call_count": "asis", "bound_root": "asis", "table_rows": "asis"}   # decided at run time by `decide_variant`
 
 
 def model_request(tab: Table, order: list[int]) -> list[str]:
-    variant = VARIANT["call_count"] + ("+b" if VARIANT["bound_root"] == "fixed" else "")
+    variant = VARIANT["call_count"] + ("+b" if VARIANT["bound_root"] == "fixed" else "") \
+        + ("+t" if VARIANT["table_rows"] == "fixed" else "")
     return ["c13.all", variant, ",".join(str(x) for x in order)] + [Table.encode(r) for r in tab.rows]
 
 
@@ -391,13 +488,22 @@ def decide_variant(ford, d: Path):
         _, gm, _ = build(ford, d, files, opts)
     _, edges = parse_dot(gm.callgraph.dot.source)
     VARIANT["bound_root"] = "fixed" if any(t == "none~b0" for t, _, _, _ in edges) else "asis"
+    # Which end of the kept edges does the table fall-back show?  Observed on the witness of C13-table-self-loop
+    # (p0 calls itself and is called by p1, p2; graph_maxnodes 1): `asis` names p0 in every row of the
+    # "called by" table of p0, `fixed` (fixes/C13-table-self-loop.diff) names p0, p1, p2.
+    files, opts = WITNESSES[TABLE_LOOP]
+    with common.quiet():
+        project, gm, _ = build(ford, d, files, opts)
+    rows = [observe_shown(p.calledbygraph)[1] for p in project.procedures if p.name == "p0"]
+    # (a tree that shows something else here is judged by the witness case itself, as the code as it is)
+    VARIANT["table_rows"] = "fixed" if rows and {n for n, _ in rows[0]} == {"p0", "p1", "p2"} else "asis"
     return dict(VARIANT)
 
 
 def compare(tab: Table, node_obs, obs: dict, resp: list[str]) -> list[str]:
     """differences between the model's answer and the real graph objects
     (`node_obs` = `observe_nodes(gm, tab)`)"""
-    diffs = []
+    diffs = list(tab.kind_mismatch)
     if resp[0] != "ok":
         return [f"model answered {resp[0]}"]
     graphs = {}
@@ -412,10 +518,16 @@ def compare(tab: Table, node_obs, obs: dict, resp: list[str]) -> list[str]:
         diffs.append(f"graph sets differ: model-only {sorted(set(graphs) - set(obs))} impl-only {sorted(set(obs) - set(graphs))}")
     for label in sorted(set(graphs) & set(obs)):
         m, o = graphs[label], obs[label]
-        for fld in ("added", "edges", "truncated", "hop_nodes", "hop_edges"):
+        for fld in ("added", "edges", "truncated", "hop_nodes", "hop_edges", "shown"):
             ov = [tuple(x) if isinstance(x, (list, tuple)) else x for x in o[fld]] if isinstance(o[fld], list) else o[fld]
             if m[fld] != ov:
                 diffs.append(f"{label}.{fld}: model {m[fld]} impl {ov}")
+        # (the order of the edges inside a hop is not modelled and the table looks at the first edge: the model
+        # answers for the self-loops of the root last and first; with the repaired code the two are equal)
+        mrows = [sorted((short_name(tab.rows[n]["name"]) if n < len(tab.rows) else str(n), st) for n, st in m[k])
+                 for k in ("rows", "rows_alt")]
+        if sorted(tuple(r) for r in o["rows"]) not in mrows:
+            diffs.append(f"{label}: rows of the table: model {mrows[0]} or {mrows[1]} impl {sorted(tuple(r) for r in o['rows'])}")
         if m["added"] != o["dot_nodes"]:
             diffs.append(f"{label}: DOT nodes {o['dot_nodes']} differ from model added {m['added']}")
     created, fwd, inv = node_obs
@@ -449,6 +561,9 @@ class Abs:
         #   gifaces: [name, [[kind, specific, spelling]]]   kind: "proc" | "mpi" | "ext"
         self.subs = []      # dict(name, parent (ident name), mod, uses[], impls[], meta)
         self.progs = []     # dict(name, uses[], calls[], procs[], meta)
+        self.blocks = []    # dict(name, uses[], meta)       BLOCK DATA program units (round 4)
+        self.bare = []      # procedures that are program units of their own (file level), same dict as `procs`
+        #   `internal` of a procedure: its internal procedures (same dict; shown only with `proc_internals`)
         self.files = {}     # file name -> [unit names]
         self.opts = {}
         self.show_private = False
@@ -474,9 +589,13 @@ def gen_meta(rng, feat, p_false=0.06, allow_limits=True):
     return meta
 
 
-def gen_abs(rng: random.Random, big: bool, focus: str | None = None) -> Abs:
+def gen_abs(rng: random.Random, big: bool, focus: str | None = None, extra: int | None = None,
+            all_units: bool = False) -> Abs:
     """`focus="hidden"`: a project about procedures that are not shown (default `display`, no limits, every
-    module has a cluster of private helpers): what the callers show must come through the helpers."""
+    module has a cluster of private helpers): what the callers show must come through the helpers.
+    `extra` (round 4): seed of an independent stream that adds the remaining kinds of program units and
+    scopes to the finished project - BLOCK DATA units with USE statements, procedures that are program units
+    of their own (file level), internal procedures of module / file-level procedures; `all_units`: all of them."""
     A = Abs()
     feat = A.features
     if focus:
@@ -777,6 +896,74 @@ def gen_abs(rng: random.Random, big: bool, focus: str | None = None) -> Abs:
             progs_seen += 1
         else:
             A.files.setdefault(f"f{k % nf}.f90", []).append(u)
+    if extra is None:
+        return A
+    # ---- round 4: every kind of program unit / scope the node constructors know (independent stream)
+    rng = random.Random(extra)      # (`fill` and its helpers draw from this stream from here on)
+    mod_names = [m["name"] for m in A.mods]
+    new_units = []
+    if all_units or rng.random() < 0.3:
+        for k in range(rng.choice([1, 1, 2])):
+            uses = rng.sample(mod_names, rng.randint(0, min(2, len(mod_names))))
+            if rng.random() < 0.15:
+                uses.append(rng.choice(["xm0", "xm1"]))
+            A.blocks.append(dict(name=f"bd{k}", uses=uses, meta=gen_meta(rng, feat, pf, special or rng.random() < 0.3)))
+            new_units.append(f"bd{k}")
+            feat.add("blockdata")
+            if uses:
+                feat.add("blockdata-use")
+            if len([u for u in uses if u.startswith("m")]) == 1 and \
+                    not any(uses[0] in x["uses"] for x in A.mods + A.subs + A.progs):
+                feat.add("blockdata-only-user")
+    if all_units or rng.random() < 0.3:
+        for k in range(rng.choice([1, 1, 2])):
+            uses = rng.sample(mod_names, rng.randint(0, min(2, len(mod_names))))
+            p = dict(name=f"fp{k}", calls=[], uses=uses, private=False, locals=[], internal=[],
+                     meta=gen_meta(rng, feat, pf, special or rng.random() < 0.3), fn=rng.random() < 0.15,
+                     form="unit", bare=True)
+            A.bare.append(p)
+            new_units.append(p["name"])
+            feat.add("file-level-proc")
+            if uses:
+                feat.add("file-level-proc-use")
+                fill(p, uses, [], allow_use=False)
+    # a file-level procedure has no explicit interface anywhere: a call to it stays a bare name
+    callers = [p for m in A.mods for p in m["procs"] + m["mpimpls"]] + [p for s in A.subs for p in s["impls"]] \
+        + list(A.progs) + [p for g in A.progs for p in g["procs"]] + list(A.bare)
+    for p in A.bare:
+        for c in rng.sample(callers, min(len(callers), rng.choice([0, 1, 2]))):
+            if ("ext", p["name"]) not in c["calls"]:
+                c["calls"].append(("ext", p["name"]))
+                feat.add("call-to-file-level-proc")
+    # internal procedures (CONTAINS inside a procedure): hosts are module and file-level procedures
+    hosts = [(p, [m["name"]] + [u for u in m["uses"] if u.startswith("m")], m["name"])
+             for m in A.mods for p in m["procs"] if p["form"] == "unit" and "graph" not in p["meta"]]
+    hosts += [(p, [u for u in p["uses"] if u.startswith("m")], None) for p in A.bare if "graph" not in p["meta"]]
+    icount = 0
+    for p, mods_here, host in hosts:
+        if not (rng.random() < (0.5 if all_units else 0.12)):
+            continue
+        for _ in range(rng.choice([1, 1, 2])):
+            p["internal"].append(dict(name=f"ip{icount}", calls=[], uses=[], private=False, locals=[], internal=[],
+                                      meta={}, fn=False, form="unit", nested=True))
+            icount += 1
+        feat.add("internal-proc")
+        if p["private"]:
+            feat.add("internal-proc-of-hidden-host")
+        for q in p["internal"]:
+            fill(q, mods_here, p["internal"], allow_use=False, host=host)
+            if any(c[0] == "proc" and c[1] == q["name"] for c in q["calls"]):
+                feat.add("recursion")
+        for q in rng.sample(p["internal"], rng.randint(1, len(p["internal"]))):
+            p["calls"].append(("proc", q["name"]))
+    # files: the new program units join existing files or get one of their own
+    for u in new_units:
+        fs = sorted(A.files)
+        if fs and rng.random() < 0.6:
+            A.files[rng.choice(fs)].append(u)
+        else:
+            A.files[f"g{len(A.files)}.f90"] = [u]
+            feat.add("file-of-non-module-units")
     return A
 
 
@@ -814,9 +1001,24 @@ def render(A: Abs) -> dict:
                 o += f"{ind}  call {c[1]}()\n"
         if fn:
             o += f"{ind}  r = 0\n"
+        if p.get("internal"):
+            o += f"{ind}contains\n"
+            for q in p["internal"]:
+                o += proc_text(q, ind + "  ")
         return o + tail
 
+    blockmap = {b["name"]: b for b in A.blocks}
+    baremap = {p["name"]: p for p in A.bare}
+
     def unit_text(name):
+        if name in blockmap:
+            b = blockmap[name]
+            o = f"block data {name}\n" + _meta_lines(b["meta"], "  ")
+            for u in b["uses"]:
+                o += f"  use {u}\n"
+            return o + f"  integer :: x_{name}\n  common /c_{name}/ x_{name}\nend block data {name}\n"
+        if name in baremap:
+            return proc_text(baremap[name], "")
         if name in modmap:
             m = modmap[name]
             o = f"module {name}\n" + _meta_lines(m["meta"], "  ")
@@ -910,6 +1112,7 @@ class Spec:
         self.calls = {}
         self.deps = {}
         self.visible = {}
+        self.comp_labels = {}  # (type ident, component type ident) -> [component names]
         d0 = A.opts.get("graph_maxdepth", INF_DEPTH)
         n0 = A.opts.get("graph_maxnodes", INF_NODES)
 
@@ -955,20 +1158,45 @@ class Spec:
             self.uses[gi] = [(mod_ident(u), "d") for u in g["uses"]]
             for p in g["procs"]:
                 procs[p["name"]] = (p, f"proc~{p['name']}")
+        # BLOCK DATA units: program units whose only relation is USE (kind "d"; "b" is a bound procedure)
+        for b in A.blocks:
+            bi = f"blockdata~{b['name']}"
+            reg(bi, "d", b["meta"])
+            self.uses[bi] = [(mod_ident(u), "d") for u in b["uses"]]
+        # procedures that are program units of their own: always documented
+        for p in A.bare:
+            procs[p["name"]] = (p, f"proc~{p['name']}")
+        # internal procedures: described on the page of their host, and only with `proc_internals`
+        self.internal_of = {}      # ident of an internal procedure -> ident of its host
+        internals = {}
+        for hp, hident in list(procs.values()):
+            for q in hp.get("internal", []):
+                internals[q["name"]] = (q, f"none~{q['name']}")
+                self.internal_of[f"none~{q['name']}"] = hident
+        procs.update(internals)
         self.procs = procs
         for name, (p, ident) in procs.items():
-            self.visible[ident] = (not p["private"]) or A.show_private
+            if ident in self.internal_of:
+                continue
+            self.visible[ident] = (not p["private"]) or A.show_private or bool(p.get("bare"))
             if self.visible[ident]:
                 reg(ident, "p", p["meta"])
             self.uses[ident] = [(mod_ident(u), "d") for u in p["uses"]]
+        for ident, hident in self.internal_of.items():
+            self.visible[ident] = bool(A.opts.get("proc_internals")) and self.visible[hident]
+            if self.visible[ident]:
+                self.kind[ident] = "n"       # a node, a root of the project-wide call graph, no graphs of its own
+                self.limits[ident] = (d0, n0)
         # types
         for name, t in types.items():
             ti = f"type~{name}"
             reg(ti, "t", t["meta"])
             out = []
             seen = set()
-            for _, ct, _ in t["comps"]:
+            for cn, ct, _ in t["comps"]:
                 c = f"type~{ct}" if ct in types else ct
+                # a composition edge is labelled with the names of the components of that type
+                self.comp_labels.setdefault((ti, c), []).append(cn)
                 if c not in seen:
                     seen.add(c)
                     out.append((c, "d"))
@@ -1065,12 +1293,16 @@ class Spec:
                 ii = f"interface~{x['name']}"
                 reg(ii, "i", {})
                 self.calls[ii] = []
+        # a procedure that is not shown is no caller either: what it calls is shown for *its* callers
+        self.calls = {a: ts for a, ts in self.calls.items() if self.visible.get(a, True)}
         # file dependencies: unit-level USE of a project module and submodule parents
         for f, us in A.files.items():
             fi = f"sourcefile~{f}"
             out = []
             for u in us:
-                unit_uses = list(self.uses.get(f"module~{u}", self.uses.get(f"program~{u}", [])))
+                unit_uses = []
+                for pre in ("module", "program", "blockdata", "proc"):
+                    unit_uses += self.uses.get(f"{pre}~{u}", [])    # (`proc`: a file-level procedure)
                 for m in A.mods:
                     if m["name"] == u:
                         for p in m["procs"]:
@@ -1081,6 +1313,8 @@ class Spec:
                         if tf != fi and tf not in out:
                             out.append(tf)
             self.deps[fi] = [(x, "d") for x in out]
+        # (file dependencies come from every USE statement; the module graphs show documented entities only)
+        self.uses = {a: ts for a, ts in self.uses.items() if self.visible.get(a, True)}
 
     # ---- relations per graph class: node -> [(neighbour, (tail, head, style))]
     def forward(self, rel):
@@ -1152,7 +1386,7 @@ def expected_graph(succ, roots, depth, maxnodes, nested):
 
 CLASSES_OF_KIND = {"m": ["uses", "usedby"], "s": ["uses", "usedby"], "t": ["inherits", "inheritedby"],
                    "p": ["calls", "calledby", "uses"], "i": ["calls", "calledby", "uses"],
-                   "g": ["uses", "calls"], "f": ["afferent", "efferent"]}
+                   "g": ["uses", "calls"], "f": ["afferent", "efferent"], "d": ["uses"], "n": []}
 INVERSE_PAIRS = [("uses", "usedby"), ("inherits", "inheritedby"), ("calls", "calledby"), ("efferent", "afferent")]
 
 
@@ -1161,13 +1395,15 @@ def project_roots(S: Spec, cls: str, drop_false=True, drop_kept_bindings=False):
     ks = S.kind
     if cls == "module":
         r = [i for i, k in ks.items() if k in "ms" and ok(i)]
-        r += [i for i, k in ks.items() if k in "gpi" and ok(i) and own_graph_nontrivial(S, i, "uses")]
+        r += [i for i, k in ks.items() if k in "gpid" and ok(i) and own_graph_nontrivial(S, i, "uses")]
         return r
     if cls == "type":
         return [i for i, k in ks.items() if k == "t" and ok(i)]
     if cls == "file":
         return [i for i, k in ks.items() if k == "f" and ok(i)]
     r = [i for i, k in ks.items() if k in "pi" and ok(i)]
+    # (an internal procedure is described on the page of its host: it is there when the host is)
+    r += [i for i, k in ks.items() if k == "n" and ok(S.internal_of[i]) and S.kind.get(S.internal_of[i]) == "p"]
     for t in (t for m in S.A.mods for t in m["types"]):
         if ok(f"type~{t['name']}"):
             r += [f"none~{g}" for g, _ in t["generics"]]
@@ -1186,7 +1422,7 @@ def own_graph_nontrivial(S: Spec, ident: str, cls: str) -> bool:
 def eager_nodes(S: Spec):
     """entities that have a node object before the per-entity graphs are drawn: the
     registered ones and everything they (transitively) depend on"""
-    seen = [i for i, k in S.kind.items() if k in "mstpigf" and i not in S.graph_false]
+    seen = [i for i, k in S.kind.items() if k in "mstpigfd" and i not in S.graph_false]
     todo = list(seen)
     while todo:
         n = todo.pop()
@@ -1209,6 +1445,8 @@ def norm_edges(S: Spec, cls: str, edges):
 
 GF_DEP = "C13-graph-false-dependency"
 BOUND_LEAF = "C13-binding-to-hidden-not-root"
+TABLE_LOOP = "C13-table-self-loop"
+BY_LAZY = "C13-by-graph-misses-unregistered"
 
 
 def judge_project(S: Spec, cls: str, nodes: set, edges):
@@ -1268,13 +1506,125 @@ def judge_entity(S: Spec, root: str, cls: str, nodes: set, edges, cache: dict):
                         f"-{sorted(set(exp_edges) - set(got[1]))}")
 
 
+def short_name(ident: str) -> str:
+    return ident.split("~", 1)[1] if "~" in ident else ident
+
+
+def judge_shown(S: Spec, root: str, cls: str, o: dict, cache: dict):
+    """How the graph appears on its page (`__str__`), judged for a graph whose content is the documented one:
+    nothing when there is nothing but the entity itself (or the roots alone exceed the node limit); the table
+    fall-back - one row per entity one step away, with the style of the edge - when the entity's first hop
+    does not fit within graph_maxnodes; the picture otherwise.  -> (None | text, finding id(s) | None)"""
+    if root == "proj":
+        gf = S.graph_false
+        succ0 = S.succ(cls)
+        succ = lambda n: [(c, e) for c, e in succ0(n) if c not in gf]  # noqa
+        roots = list(dict.fromkeys(project_roots(S, cls)))
+        d, nested = 1, False
+        maxn = max([1] + [S.limits[r][1] for r in roots if r in S.limits])
+    else:
+        succ = S.succ(cls)
+        roots, nested = [root], True
+        d, maxn = S.limits[root]
+
+    def expect(sc):
+        exp = expected_graph(sc, roots, d, maxn, nested)
+        if len(roots) > maxn:
+            return "n", [], set()
+        if exp[2] == 1 and len(roots) == 1:
+            rows, free = [], set()
+            for _, (t, h, st) in sc(roots[0]):
+                other = h if t == roots[0] else t
+                if cls == "calledby" and S.kind.get(t) == "b":
+                    free.add(short_name(other))      # (style of generic-binding edges in "called by" is not judged)
+                rows.append((short_name(other), st))
+            return "t", rows, free
+        return ("s" if len(exp[0]) > 1 else "n"), [], set()
+
+    def agrees(want, rows, free, renamed=False):
+        if o["shown"] != want:
+            return False
+        if renamed:     # the table of finding C13-table-self-loop: every row names the root
+            rows = [(short_name(roots[0]), st) for _, st in rows]
+            free = {short_name(roots[0])} if free else set()
+        norm = lambda rs: sorted((n, "*" if n in free else st) for n, st in rs)  # noqa
+        return norm(rows) == norm(tuple(r) for r in o["rows"])
+
+    want, rows, free = expect(succ)
+    if agrees(want, rows, free):
+        return None, None
+    by_class = root != "proj" and cls in ("usedby", "inheritedby", "calledby", "afferent")
+    loop = lambda sc: by_class and any(t == h for _, (t, h, _) in sc(roots[0]))  # noqa
+    fid = None
+    if want == "t" and loop(succ) and agrees(want, rows, free, renamed=True):
+        fid = TABLE_LOOP
+    elif by_class:
+        if "eager" not in cache:
+            cache["eager"] = eager_nodes(S)
+        eager = cache["eager"]
+        lazy = lambda m: [(c, e) for c, e in succ(m) if c in eager]  # noqa
+        w2, r2, f2 = expect(lazy)
+        if agrees(w2, r2, f2):
+            fid = BY_LAZY
+        elif w2 == "t" and loop(lazy) and agrees(w2, r2, f2, renamed=True):
+            fid = (BY_LAZY, TABLE_LOOP)
+    names = {"n": "not shown", "t": "shown as a table", "s": "shown as a picture", "?": "unrecognised text"}
+    if o["shown"] != want:
+        return (f"{cls} graph of {root} (maxnodes {maxn}) is {names.get(o['shown'], o['shown'])}, documented: "
+                f"{names[want]}"), fid
+    return (f"table of the {cls} graph of {root} (maxnodes {maxn}): rows {sorted(tuple(r) for r in o['rows'])}, documented "
+            f"(every entity one step away, with the style of its edge): {sorted(rows)}"), fid
+
+
 MODPROC_IMPL = "C13-modproc-impl-no-edge"
 
 
-def oracle(A: Abs, S: Spec, obs: dict):
+GRAPH_CLASS_NAME = {"uses": "UsesGraph", "usedby": "UsedByGraph", "inherits": "InheritsGraph",
+                    "inheritedby": "InheritedByGraph", "calls": "CallsGraph", "calledby": "CalledByGraph",
+                    "afferent": "AfferentGraph", "efferent": "EfferentGraph", "module": "ModuleGraph",
+                    "type": "TypeGraph", "call": "CallGraph", "file": "FileGraph"}
+
+
+def file_name(root: str, cls: str) -> str:
+    """name of the file `graph_dir` gets for a graph: <directory of the entity's page>~~<ident>~~<graph class>.gv"""
+    if root == "proj":
+        return f"{cls}~~graph~~{GRAPH_CLASS_NAME[cls]}.gv"
+    return f"{root.replace('~', '~~', 1)}~~{GRAPH_CLASS_NAME[cls]}.gv"
+
+
+def judge_files(S: Spec | None, obs: dict, saved: dict, unjudged: set):
+    """The graph files of `graph_dir` (`GraphManager.output_graphs`): a graph is saved as
+    <dir>~~<ident>~~<class>.gv, the file holds the same nodes and edges as the graph on the page (whose
+    content the oracle judges against the relation), and no other graph file is written (none for
+    `graph: false`, none under the name of another entity or class)."""
+    fails = []
+    expected = {}
+    for label, o in obs.items():
+        root, cls = label.rsplit(":", 1)
+        name = file_name(root, cls)
+        if o["file"] != name:
+            fails.append((label, f"the graph is saved as {o['file']}, documented: {name}", None))
+        expected[o["file"]] = (label, o)
+    for fname, content in saved.items():
+        if content is None:
+            fails.append((fname, f"graph_dir holds {fname}, which is no graph file", None))
+        elif fname not in expected:
+            fails.append((fname, f"graph file {fname} belongs to no graph of a documented entity", None))
+    for fname, (label, o) in expected.items():
+        # (which graphs get a file at all - FORD writes those that show more than their roots, except the
+        # "uses" graphs of procedures - is a matter of output completeness, not of this property: not judged)
+        if saved.get(fname):
+            nodes, edges = saved[fname]
+            if nodes != sorted(set(o["dot_nodes"])) or edges != sorted(tuple(e) for e in o["edges"]):
+                fails.append((label, f"{fname} holds nodes {nodes} edges {edges}, the graph on the page "
+                                     f"{sorted(set(o['dot_nodes']))} / {sorted(tuple(e) for e in o['edges'])}", None))
+    return fails
+
+
+def oracle(A: Abs, S: Spec, obs: dict, saved: dict | None = None):
     """-> list of (label, why, finding id | tuple of finding ids | None).  A tuple means: the observed
     graph is the documented one only after *all* of these listed defects are taken into account."""
-    fails = []
+    fails = [] if saved is None else judge_files(S, obs, saved, set())
     labels = set(obs)
     # the relation of finding C13-modproc-impl-no-edge, only consulted to classify a failure
     S2 = Spec(A, drop_proc_form_impl=True) if S.proc_form_impl_edges else None
@@ -1306,6 +1656,15 @@ def oracle(A: Abs, S: Spec, obs: dict):
             judge = lambda X, c: judge_entity(X, root, cls, nodes, o["edges"], c)  # noqa
         ok, fid, why = judge(S, cache)
         if ok:
+            w, wfid = judge_shown(S, root, cls, o, cache)
+            if w:
+                fails.append((label, w, wfid))
+            if cls in ("type", "inherits", "inheritedby"):
+                # composition edges say through which components: "c0, c1" in declaration order; no other edge is labelled
+                want = sorted((t, h, ", ".join(S.comp_labels[(t, h)])) for t, h, st in o["edges"] if st == "d")
+                if want != sorted(tuple(x) for x in o["edge_labels"]):
+                    fails.append((label, f"{cls} graph of {root}: edge labels {o['edge_labels']}, documented (names of the "
+                                         f"components, per composition edge): {want}", None))
             continue
         if fid is None and S2 is not None:
             ok2, fid2, _ = judge(S2, cache2)
@@ -1346,6 +1705,8 @@ def names_obs(obs: dict, tab: Table) -> dict:
         out[f"{root}:{cls}"] = {
             "dot_nodes": [nm(x) for x in o["dot_nodes"]], "added": [nm(x) for x in o["added"]],
             "edges": [(nm(t), nm(h), s) for t, h, s in o["edges"]], "truncated": o["truncated"],
+            "shown": o["shown"], "rows": o["rows"], "file": o["file"], "nroots": o["nroots"],
+            "edge_labels": o["edge_labels"],
         }
     return out
 
@@ -1435,6 +1796,10 @@ WITNESSES = {
                   "  subroutine p0()\n    type(t0) :: v0\n    call v0%b0()\n  end subroutine p0\n"
                   "  subroutine h0()\n    call p1()\n  end subroutine h0\n"
                   "  subroutine p1()\n  end subroutine p1\nend module m0\n"}, {}),
+    "C13-table-self-loop": (
+        {"a.f90": "module m0\ncontains\n  subroutine p0()\n    call p0()\n  end subroutine p0\n"
+                  "  subroutine p1()\n    call p0()\n  end subroutine p1\n"
+                  "  subroutine p2()\n    call p0()\n  end subroutine p2\nend module m0\n"}, {"graph_maxnodes": 1}),
 }
 
 
@@ -1458,6 +1823,9 @@ def witness_abs(fid: str) -> Abs:
         p0 = dict(pr("p0", []), calls=[("tb", "v0", "b0")], locals=[("v0", "t0")])
         A.mods = [dict(mk("m0", procs=[p0, dict(pr("h0", ["p1"]), private=True, bound=True), pr("p1", [])]),
                        types=[dict(name="t0", extends=None, comps=[], binds=[("b0", "h0")], generics=[], meta={})])]
+    elif fid == "C13-table-self-loop":
+        A.mods = [mk("m0", procs=[pr("p0", ["p0"]), pr("p1", ["p0"]), pr("p2", ["p0"])])]
+        A.opts = {"graph_maxnodes": 1}
     else:
         A.mods = [mk("m0", procs=[pr("p0", ["p1"]), pr("p1", ["p0"])])]
         A.opts = {"graph_maxnodes": 3}
@@ -1491,6 +1859,12 @@ def run_case(ford, drv, d: Path, A: Abs | None, files: dict, opts: dict):
     obs = observe_all(gm, tab)
     tab.close()
     out["ngraphs"] = len(obs)
+    try:
+        with common.quiet():
+            saved = save_graphs(gm, d / "graphs")
+    except Exception as e:
+        out["error"] = f"output_graphs: {type(e).__name__}: {str(e)[:200]}"
+        return out
     node_obs = observe_nodes(gm, tab)
     out["request"] = model_request(tab, oids)
 
@@ -1516,7 +1890,10 @@ def run_case(ford, drv, d: Path, A: Abs | None, files: dict, opts: dict):
         if len(o["dot_nodes"]) >= 4:
             st["nodes>=4"] = st.get("nodes>=4", 0) + 1
     if A is not None:
-        out["fails"] = oracle(A, Spec(A), names_obs(obs, tab))
+        out["fails"] = oracle(A, Spec(A), names_obs(obs, tab), saved)
+    else:
+        out["fails"] = judge_files(None, names_obs(obs, tab), saved, set())
+    st["gv-files"] = len(saved)
     out["sample"] = {k: {"nodes": [tab.rows[x]["name"] for x in v["dot_nodes"]],
                          "edges": [(tab.rows[t]["name"], tab.rows[h]["name"], s) for t, h, s in v["edges"]],
                          "truncated": v["truncated"]}
@@ -1541,7 +1918,9 @@ def run(tier: str, seed: int, replay: str | None = None) -> int:
     n_micro = 6000 if tier == "quick" else 60000
 
     # SVG rendering (graphviz `dot`, not part of the observation) is done for real on every
-    # 8th project only; the DOT source is what is compared.
+    # 16th project only (thorough: every 8th; one `dot` process per graph, ~60 per project, is what the wall
+    # time of this check consists of on a loaded machine); the DOT source is what is compared.
+    real_every = 16 if tier == "quick" else 8
     import graphviz
     real_pipe = graphviz.Digraph.pipe
     fake_pipe = lambda self, *a, **k: b'<svg width="10pt" height="10pt"></svg>'  # noqa
@@ -1569,7 +1948,10 @@ def run(tier: str, seed: int, replay: str | None = None) -> int:
             A = witness_abs(fid)
             cases.append((A, render(A), A.opts, "witness"))
         for k in range(n_proj):
-            A = gen_abs(rng, big=(k % 3 == 0), focus="hidden" if k % 5 == 4 else None)
+            # (the round-4 dimensions come from a stream of their own: the projects of the earlier rounds stay
+            # what they were, every 7th gets all the additional kinds of program units and scopes)
+            A = gen_abs(rng, big=(k % 3 == 0), focus="hidden" if k % 5 == 4 else None,
+                        extra=(seed * 7919 + 13) * 100003 + k, all_units=(k % 7 == 3))
             cases.append((A, render(A), A.opts, "proj"))
     try:
         ev_micro, bad_micro = micro_callnodes(ford, drv, rng, n_micro, rep)
@@ -1577,13 +1959,14 @@ def run(tier: str, seed: int, replay: str | None = None) -> int:
             graphviz.Digraph.pipe = fake_pipe
             variants = decide_variant(ford, d / "v")
             rep.coverage["variant_decided"] = {"CallGraph node counting": variants["call_count"],
-                                               "bound procedures as call-graph roots": variants["bound_root"]}
+                                               "bound procedures as call-graph roots": variants["bound_root"],
+                                               "side shown by the table fall-back": variants["table_rows"]}
             CHUNK = 64      # the model answers the requests of this many projects in one run of the driver
             for k0 in range(0, len(cases), CHUNK):
                 results = []
                 for k in range(k0, min(k0 + CHUNK, len(cases))):
                     A, files, opts, stream = cases[k]
-                    graphviz.Digraph.pipe = real_pipe if k % 8 == 0 else fake_pipe
+                    graphviz.Digraph.pipe = real_pipe if k % real_every == 0 else fake_pipe
                     results.append((k, run_case(ford, None, d / "p", A, files, opts)))
                 pending = [res for _, res in results if "settle" in res]
                 for res, resp in zip(pending, drv.batch([res["request"] for res in pending])):
@@ -1643,5 +2026,11 @@ def run(tier: str, seed: int, replay: str | None = None) -> int:
         "nodes; a specific procedure that is hidden (private, display without private) is expected to have no edge",
         "graph_maxdepth: 0 is read as one hop (the code always expands the roots once)",
         "a program unit is a root of a project-wide graph when its own graph shows more than itself (the code's rule)",
+        "a call to a procedure that is a program unit of its own (no explicit interface in scope) stays a bare name, as "
+        "C07 / C08 state it; an internal procedure is shown only with proc_internals and has no graphs of its own",
+        "the order of the edges inside a hop is not modelled: for the table fall-back, which looks at the first edge, "
+        "the model answers for both relevant orders (self-loops of the root first / last)",
+        "which graphs get a file in graph_dir at all is not judged (output completeness): FORD writes those that show "
+        "more than their roots, except the `uses` graphs of procedures; `dot` itself is not run for these files",
     ]
     return rep.finish(lean)
